@@ -171,10 +171,19 @@ impl Lift for SubWordValue {
                 _ => value,
             };
 
+            // The sub-word starts `shift` bits above the mask position. If that is at or beyond the
+            // end of the word there is nothing of the word left to describe, and if it ends beyond
+            // the end of the word only the part inside the word exists.
+            let offset = match offset.checked_add(shift) {
+                Some(start) if start < WORD_SIZE_BITS => start,
+                _ => return None,
+            };
+            let length = length.min(WORD_SIZE_BITS - offset);
+
             // If we find a word, we can easily construct the return data
             let payload = SVD::SubWord {
                 value,
-                offset: offset + shift,
+                offset,
                 size: length,
             };
 
